@@ -11,39 +11,46 @@ def showVec (v : List Rat) : String := showRatsL v
 def showDense (r c : Nat) (m : Mat) : String :=
   " ".intercalate (toString r :: toString c :: ((tab r c (get m)).flatten.map showRat))
 
-def showCsr (m : Csr) : String :=
-  s!"{m.rows} {m.cols} {showNatsL m.rowPtr} {showNatsL m.colInd} {showRatsL m.val}"
+def showCsr (m : FeatModel.LA.Csr Rat) : String :=
+  s!"{m.rows} {m.cols} {showNatsL m.rowPtr.toList} {showNatsL m.colInd.toList} {showRatsL m.val.toList}"
 
-def csrP : P Csr := do
+/-- CSR arrays from the case line; no stored entries = the container without arrays (`SparseMatrixCSR(rows, cols)`) -/
+def csrP : P (FeatModel.LA.Csr Rat) := do
   let rows ← nat; let cols ← nat
   let rp ← natList; let ci ← natList; let va ← ratList
-  pure { rows := rows, cols := cols, rowPtr := rp, colInd := ci, val := va }
+  if ci.isEmpty then pure (FeatModel.LA.Csr.entryFree rows cols)
+  else pure { rows := rows, cols := cols, rowPtr := rp.toArray, colInd := ci.toArray, val := va.toArray }
 
-def ptP (nfl ncl : Nat) : P Pt := do
-  let w ← rat
-  let f ← many nfl rat
-  let c ← many ncl rat
-  pure { w := w, f := f, c := c }
-
-def childP (ncl : Nat) : P Child := do
-  let fmap ← natList
-  let np ← nat
-  let pts ← many np (ptP fmap.length ncl)
-  pure { fmap := fmap, pts := pts }
-
-def cellP (nchild : Nat) : P Cell := do
+def coarseCellP (nchild npts : Nat) : P CoarseCell := do
   let cmap ← natList
   let ncp ← nat
-  let cpts ← many ncp (ptP 0 cmap.length)
-  let children ← many nchild (childP cmap.length)
-  pure { cmap := cmap, cpts := cpts, children := children }
+  let cpts ← many ncp (do
+    let w ← rat
+    let c ← many cmap.length rat
+    pure ({ w := w, f := [], c := c } : Pt))
+  let ref ← many (nchild * npts) (many cmap.length rat)
+  pure { cmap := cmap, cpts := cpts, ref := ref }
 
-def dumpP : P Dump := do
+def fineCellP (npts : Nat) : P FineCell := do
+  let fmap ← natList
+  let pts ← many npts (do
+    let w ← rat
+    let f ← many fmap.length rat
+    pure (w, f))
+  pure { fmap := fmap, pts := pts }
+
+/-- the mesh-indexed ingredients + the two permutation arrays + the layout of the prolongation matrix -/
+def dumpP : P (TwoLevel × List Nat × List Nat) := do
   let t ← tok
   if t ≠ "D" then throw "expected D"
-  let nf ← nat; let nc ← nat; let ncells ← nat; let nchild ← nat
-  let cells ← many ncells (cellP nchild)
-  pure { nf := nf, nc := nc, cells := cells }
+  let nf ← nat; let nc ← nat; let ncells ← nat; let nchild ← nat; let nfine ← nat; let npts ← nat
+  let _ ← tok; let cp ← natList
+  let _ ← tok; let fp ← natList
+  let _ ← tok; let ptr ← natList; let ind ← natList
+  let coarse ← many ncells (coarseCellP nchild npts)
+  let fine ← many nfine (fineCellP npts)
+  pure ({ nf := nf, nc := nc, nchild := nchild, npts := npts, coarse := coarse, fine := fine,
+          coarsePerm := cp, fineInvPerm := fp }, ptr, ind)
 
 /-- skip the configuration tokens: shape space cubature level perm_c perm_f affine-list offset-list -/
 def skipCfg : P Unit := do
@@ -61,7 +68,7 @@ def optAbort (o : Option α) : Except Fail α :=
   | none => .error .abort
 
 /-- everything the harness prints for an `fe` case, in the order the harness computes it -/
-def feCase (d : Dump) (x y : List Rat) : Except Fail String := do
+def feCase (d : Dump) (ptr ind : List Nat) (x y : List Rat) : Except Fail String := do
   let locs ← localProls d
   let w := prolWeights d locs
   let praw := prolRaw d locs
@@ -71,6 +78,8 @@ def feCase (d : Dump) (x y : List Rat) : Except Fail String := do
   let traw := truncRaw d tl
   let td ← optAbort (scaleRows d.nf traw wt)
   let r := transposeDense d.nf d.nc pd
+  let pc := csrOfDense d.nf d.nc ptr ind pd
+  let rc := (Transfer.ofProl pc (FeatModel.LA.Csr.entryFree d.nc d.nf)).rest
   let vf := pvecRaw d locs x
   let vd ← optAbort (scaleVec vf w)
   let xp := matVec d.nf d.nc pd x
@@ -78,6 +87,7 @@ def feCase (d : Dump) (x y : List Rat) : Except Fail String := do
   let xt := matVec d.nc d.nf td y
   pure (s!"W {showVec w} P {showDense d.nf d.nc praw} PD {showDense d.nf d.nc pd} WT {showVec wt} " ++
     s!"T {showDense d.nc d.nf traw} TD {showDense d.nc d.nf td} R {showDense d.nc d.nf r} " ++
+    s!"PC {showCsr pc} RC {showCsr rc} " ++
     s!"VF {showVec vf} VW {showVec w} VD {showVec vd} XP {showVec xp} XR {showVec xr} XT {showVec xt}")
 
 def handle : P String := do
@@ -85,25 +95,37 @@ def handle : P String := do
   match op with
   | "inv" =>
     let n ← nat; let stride ← nat
-    let a ← many (n * n) rat
-    let m : Mat := tab n n fun i j => a.getD (i * n + j) 0
-    match invertMatrix n stride m with
+    let vals ← many (n * n) rat
+    -- the storage array of the harness: n*stride+1 entries, padding value 7, the block at i*stride+j
+    let a : List Rat := if stride < n then [] else
+      (List.range (n * stride + 1)).map fun idx =>
+        if idx / stride < n ∧ idx % stride < n then vals.getD (idx / stride * n + idx % stride) 0 else 7
+    match invertFlat n stride a with
     | none => pure "ABORT"
-    | some (det, inv, p) =>
+    | some (det, a', p) =>
       let k := if n ≥ 1 ∧ stride ≥ n then n else 0
-      pure s!"I {showRat det} {showRatsL ((tab k k (get inv)).flatten)} {showNatsL p} PAD-OK"
+      let padOk := (List.range k).all fun i => (List.range' n (stride - n)).all fun j => getF stride a' i j == 7
+      let flag := if padOk then "PAD-OK" else "PAD-TOUCHED"
+      pure s!"I {showRat det} {showRatsL ((extractBlock k stride a').flatten)} {showNatsL p} {flag}"
   | "xfer" =>
     let prol ← csrP; let trunc ← csrP
     let x ← ratList; let y ← ratList
-    let t : Transfer := { prol := prol, rest := prol.transpose, trunc := trunc }
-    pure s!"R {showCsr t.rest} XP {showVec (t.applyProl x)} XR {showVec (t.applyRest y)} XT {showVec (t.applyTrunc y)}"
+    let t := Transfer.ofProl prol trunc
+    -- the harness starts from vectors filled with 5: the operators must overwrite
+    let five (n : Nat) : Array Rat := Array.replicate n 5
+    match t.applyProl (five y.length) x.toArray, t.applyRest y.toArray (five x.length),
+        t.applyTrunc y.toArray (five x.length) with
+    | some xp, some xr, some xt =>
+      pure s!"R {showCsr t.rest} XP {showVec xp.toList} XR {showVec xr.toList} XT {showVec xt.toList}"
+    | _, _, _ => pure "ABORT"
   | "fe" =>
     skipCfg
     let _ ← tok; let x ← ratList
     let _ ← tok; let y ← ratList
-    let d ← dumpP
+    let (m, ptr, ind) ← dumpP
+    let d := m.toDump
     if x.length ≠ d.nc ∨ y.length ≠ d.nf then pure "BAD-VECTOR-SIZE"
-    else match feCase d x y with
+    else match feCase d ptr ind x y with
     | .ok s => pure s
     | .error e => pure (failStr e)
   | _ => throw s!"unknown op {op}"
